@@ -187,7 +187,15 @@ def gen_session(seed):
         if x < p_bad * 1000:
             sess.append(["bad", rng.below(len(BAD))])
         elif x < (p_bad + p_reset) * 1000:
-            sess.append(["reset"])
+            if rng.chance(0.3):
+                # the interpreter's range cache is full of other ranges when the reset happens; a range cached right after the
+                # reset must still be found when an equal literal is evaluated a moment later
+                k_ = rng.below(3)
+                sess.append(["snip", [["manyranges", g.id()]]])
+                sess.append(["reset"])
+                sess.append(["snip", [["setrange", k_], ["cmprange", k_, g.id()], ["cmprange", k_, g.id()]]])
+            else:
+                sess.append(["reset"])
         elif (p_bad + p_reset + p_exec) * 1000 <= x < (p_bad + p_reset + p_exec + p_pre) * 1000:
             # the host compiles a small program now (and keeps the function) / executes one it compiled earlier - possibly before
             # failed snippets and resets that happened in between
